@@ -132,10 +132,37 @@ def r1_transducer_template(ctx):
                             t = a.items[1]
                             if L.head(t) in ("zero?", "=", "==") and any(L.head(x) in ("vswap!", "deref") or (isinstance(x, L.Wrap) and x.tag == "deref") or (isinstance(x, L.Sym) and x.val in _counter_names(inner)) for x in L.walk(t)):
                                 problems.append(f"termination is signalled when `{t.text()}`: an equality test on a counter is skipped when the counter starts at or below the bound (take 0 / take -1 would never terminate early)")
+        # a buffering step must not hold the current input when it calls rf: if rf answers with a
+        # reduced value the completion arity still flushes the buffer, feeding a downstream that has
+        # already stopped.  Walk the forms evaluated before each rf call: .clear empties, .append fills.
+        for b in sbody:
+            for c in _rf_calls(b, 2):
+                state = _buffer_state_before(c, inner)
+                if state == "filled":
+                    problems.append(f"`{c.text()[:50]}` is called while the current input already sits in the buffer: if it returns a reduced value, completion flushes that input into a downstream that has stopped (buffer the input only after a (reduced? ret) test)")
         ctx.ob("C07.R1", f"{CORE}::{name}::step arity is reduced-safe", CORE, step[0].line, not problems, "; ".join(problems[:2]))
         if name in ("take", "take-while"):
             ok = any(L.head(f) in ("ensure-reduced", "reduced") for b in sbody for f in L.walk(b))
             ctx.ob("C07.R1", f"{CORE}::{name}::signals early termination", CORE, step[0].line, ok, "" if ok else f"{name} never returns a reduced value: it cannot stop an infinite input")
+
+
+def _buffer_state_before(call, stop):
+    """'filled' if, among the forms evaluated before `call` inside the step arity (preceding
+    siblings in the enclosing do / let / fn bodies, nearest block first), the last buffer operation
+    is an .append; 'empty' if it is a .clear; None if the step does not touch a buffer."""
+    node = call
+    while node is not None and node is not stop:
+        par = node.parent
+        if par is None:
+            break
+        if isinstance(par, L.List) and L.head(par) in ("do", "let", "let*", "when", "when-not", "fn", "fn*") or (isinstance(par, L.List) and par.items and isinstance(par.items[0], L.Vec)):
+            sibs = par.items[: next(i for i, x in enumerate(par.items) if x is node)]
+            for s in reversed(sibs):
+                ops = [f for f in L.walk(s) if L.head(f) in (".append", ".clear", ".extend")]
+                if ops:
+                    return "filled" if L.head(ops[-1]) in (".append", ".extend") else "empty"
+        node = par
+    return None
 
 
 def _counter_names(inner):
@@ -369,6 +396,9 @@ def r5_reduce_unwraps_exactly_one_level(ctx):
 
 
 SELFTEST = [
+    {"name": "partition-by buffers the input before asking downstream (the repaired defect)", "file": CORE, "expect": "C07.R1",
+     "old": "                (let [ret (rf result elem)]\n                  (when-not (reduced? ret)\n                    (.append lst input))\n                  ret)))))))))\n",
+     "new": "                (.append lst input)\n                (rf result elem)))))))))\n"},
     {"name": "reduce unwraps nested reduced values completely", "file": "src/basilisp/lang/runtime.py", "expect": "C07.R5",
      "old": "        if isinstance(res, Reduced):\n            return res.deref()\n", "new": "        if isinstance(res, Reduced):\n            while isinstance(res, Reduced):\n                res = res.deref()\n            return res\n"},
     {"name": "vector reduce-kv forgets to stop", "file": "src/basilisp/lang/vector.py", "expect": "C07.R5",
